@@ -204,7 +204,12 @@ pub fn dump_program(pid: usize, modes: &[RealMode], origin: &str) -> Result<Opti
     }
     let cls_atoms: Vec<Vec<u32>> = (0..n_classes).map(|id| members(leaves.len() + id)).collect();
     let mut cases = vec![];
+    // the minimizer is called once for every mode automaton and, after it, once for every lookahead
+    // of that mode (pattern order): rec_i walks the records in that order
+    let mut rec_i = 0usize;
     for (mi, (m, ps)) in dump.modes.iter().zip(parsed.iter_mut()).enumerate() {
+        let pre = records.get(rec_i).map(|r| (r.0.n_states, r.0.transitions.len()));
+        rec_i += 1 + ps.iter().filter(|p| p.2.is_some()).count();
         let mut pats = vec![];
         for (re, tt, la) in ps.iter_mut() {
             set_leaves(re, &leaf_sets);
@@ -216,6 +221,7 @@ pub fn dump_program(pid: usize, modes: &[RealMode], origin: &str) -> Result<Opti
         cases.push(json!({"kind": "mode", "program": pid, "origin": origin, "mode": mi, "natoms": natoms,
             "pats": pats, "impl": automaton_json(&m.dfa), "impl0": {"n": 0, "out": [], "trans": [], "acc": [], "prio": []},
             "clsAtoms": cls_atoms, "nclasses": n_classes, "rep": rep,
+            "pre_n": pre.map(|x| x.0 as i64).unwrap_or(-1), "pre_trans": pre.map(|x| x.1 as i64).unwrap_or(-1),
             "types": ps.iter().map(|p| p.1).collect::<Vec<_>>(),
             "desc": modes[mi].pats.iter().map(|p| p.pattern.clone()).collect::<Vec<_>>()}));
         for (tt, _pos, la_dump) in m.dfa.lookaheads.iter() {
